@@ -151,7 +151,7 @@ Lemma finish_static : forall g s e ends,
              IL s < IL (finish init s ends) /\ cj (finish init s ends) = cj s /\ ci_ext s (finish init s ends).
 Proof.
   intros g s e ends Hg Hc He Hl. destruct He as [[Hd He]|[[j [Hd Hj]]|[j [Hd Hj]]]]; subst ends.
-  - subst e. cbn [fst snd] in Hc. destruct (finish_default init s) as [[Hf Hlast]|Hf].
+  - subst e. cbn [fst snd] in Hc. destruct (finish_default init s) as [[Hf [Hlast _]]|Hf].
     + exfalso. apply (Hl _ Hlast). reflexivity.
     + rewrite Hf. exists (gemit g (0, 0)). splits.
       * apply step_end; assumption.
